@@ -21,6 +21,7 @@ func init() {
 			c07R4(c, "C07.R4")
 			c08R2(c, "C07.R5") // a failed commit must give back the pages it took from the free list (physical rollback shape)
 			ruleRollbackUndoesFrees(c, "C07.R6")
+			c06R1(c, "C07.R7") // every page of a run is written where its id says (else the run's pages are neither reachable nor free)
 		},
 	})
 }
